@@ -245,7 +245,7 @@ class Ctx:
         elif self.broken:
             for b in self.broken:
                 print("note: coverage assertion failed (secondary to the violation): %s" % b)
-        if not self.replaying and not getattr(self, "only", None):
+        if not self.replaying and not getattr(self, "only", None) and not os.environ.get("BEX_NO_EVIDENCE"):
             try:
                 import jsonschema
 
